@@ -64,6 +64,10 @@ class History:
                     out.append(frozenset(s))
         return out
 
+    def source_splits(self):
+        """Every way to split the history between a fallback (an ancestor-closed set) and a repository stacked on it."""
+        return self.closed_subsets()
+
     def heads(self, nodes):
         return sorted(gen.heads(self.dag, nodes))
 
